@@ -7,13 +7,13 @@ import (
 )
 
 // c05 source kinds
-var c05Kinds = []string{"func", "structV", "structP", "value", "ifacevalue", "bind", "fieldV", "fieldP", "arg"}
+var c05Kinds = []string{"func", "structV", "structP", "value", "ifacevalue", "bind", "bindSame", "fieldV", "fieldP", "arg"}
 
 // classes of the contested type and the kinds that can provide each
 var c05Classes = map[string][]string{
 	"S":    {"func", "structV", "value", "fieldV", "arg"},
 	"PS":   {"func", "structP", "value", "fieldV", "fieldP", "arg"},
-	"I":    {"func", "ifacevalue", "bind", "fieldV", "arg"},
+	"I":    {"func", "ifacevalue", "bind", "bindSame", "fieldV", "arg"},
 	"COMP": {"func", "value", "fieldV", "arg"},
 }
 
@@ -158,7 +158,15 @@ func c05Source(b *PB, ct *c05T, kind string, t *Ty, pkg int) (main *Item, suppor
 	case "bind":
 		impl := b.NamedOf(pkg, fmt.Sprintf("Impl%d", b.next()), StructOf(FieldT{Name: "X", Ty: Basic("int")}), "none")
 		impl.Decl.Methods = append(impl.Decl.Methods, Method{Name: ct.method})
+		ct.impls = append(ct.impls, impl)
 		return b.Bind(t, impl), []*Item{stub(impl)}, true
+	case "bindSame":
+		// a second binding of the interface to the SAME concrete type an earlier binding used
+		// (its provider is the earlier source's; only where the enclosing set includes it)
+		if len(ct.impls) == 0 {
+			return nil, nil, false
+		}
+		return b.Bind(t, ct.impls[0]), nil, true
 	case "fieldV":
 		par := b.NamedOf(pkg, fmt.Sprintf("Parent%d", b.next()), StructOf(FieldT{Name: "Fld", Ty: t}), "none")
 		return b.Fields(par, "Fld"), []*Item{stub(par)}, true
@@ -257,7 +265,7 @@ func c05Case(id string, k1, k2, class, placement string, alias bool) (mut, ctl *
 				bl = append(bl, g2...)
 			}
 		case "siblings", "inline-siblings":
-			if len(g1) == 0 || (withSecond && len(g2) == 0) {
+			if len(g1) == 0 || (withSecond && len(g2) == 0) || k2 == "bindSame" {
 				return nil, "", false
 			}
 			s1 := b.Set(0, "SetA", g1...)
@@ -375,7 +383,13 @@ func CheckC05(e *Env) int {
 				k1, k2 := kinds[i], kinds[j]
 				placements := c05Placements
 				aliasForms := []bool{false, true}
-				if e.Tier != "thorough" {
+				if (k1 == "bindSame") != (k2 == "bindSame") && !(k1 == "bind" || k2 == "bind") {
+					continue // a re-binding needs an earlier binding
+				}
+				if k1 == "bindSame" && k2 == "bindSame" {
+					continue
+				}
+				if e.Tier != "thorough" && !(k1 == "bind" && k2 == "bindSame") {
 					// two seeded placements, one alias form per cell
 					p1 := r.Intn(len(c05Placements))
 					p2 := (p1 + 1 + r.Intn(len(c05Placements)-1)) % len(c05Placements)
@@ -385,7 +399,7 @@ func CheckC05(e *Env) int {
 				for _, pl := range placements {
 					for _, al := range aliasForms {
 						a, b := k1, k2
-						if r.Intn(2) == 0 {
+						if r.Intn(2) == 0 && b != "bindSame" {
 							a, b = b, a
 						}
 						n++
